@@ -475,22 +475,10 @@ func c06R1(p *Prog, r *Report) {
 	r.Check(nLit >= 1, rule, "conn:domain-addr-literals-found", "conn/addr.go", fmt.Sprintf("%d", nLit), "no domain-family Addr literal found")
 	// 5. default route
 	rt := p.Func("router", "Config", "Router")
-	okDef := false
-	for _, v := range rt.G.V {
-		if as, ok := v.Node.(*ast.AssignStmt); ok && len(as.Lhs) == 1 {
-			l := strings.ReplaceAll(exprStr(as.Lhs[0]), " ", "")
-			if l == "routes[len(rc.Routes)]" && exprStr(as.Rhs[0]) == "defaultRoute" && rt.G.Dominates([]int{v.ID}, rt.G.Exit) || (l == "routes[len(rc.Routes)]" && exprStr(as.Rhs[0]) == "defaultRoute") {
-				okDef = true
-			}
-		}
-	}
-	// the default route has no criteria: Route{name: "default"} and AddCriterion is never called on it
-	noCrit := true
-	for _, cs := range rt.AllCalls() {
-		if cs.Fn != nil && cs.Fn.Name() == "AddCriterion" && strings.HasPrefix(exprStr(cs.Call.Fun), "defaultRoute.") {
-			noCrit = false
-		}
-	}
+	// (the same facts C09-R5 decides: a slice one longer than the configured routes, whose last
+	// slot holds a route that never receives a criterion)
+	okMakeR, _, okLast, noCrit := routeSliceFacts(p)
+	okDef := okMakeR && okLast
 	rm := p.Func("router", "Route", "Match")
 	// Match returns true when there are no criteria: the loop over criteria falls through to `return true, nil`
 	matchTrue := false
